@@ -97,15 +97,23 @@ Theorem C19_join_name_orig_refuted : forall n k, In (PInt k) n -> join_name_orig
 Proof. exact join_name_orig_refuted. Qed.
 Print Assumptions C19_join_name_orig_refuted.
 
-(* F11-F13: whatever the register names / field paths are, the names csr.Bridge.elaborate and
-   csr.Register.elaborate hand to `m.submodules[...]` are pairwise distinct (and differ from "mux"),
-   so Amaranth's "Submodule named ... already exists" NameError cannot occur; one submodule per
-   register / field *)
+(* F11-F13 (+ the repair of the repair, 823f054): whatever the register names are, csr.Bridge.elaborate's
+   suffix loop terminates, the multiplexer and EVERY register get a named submodule of their own, and the
+   names handed to `m.submodules[...]` are pairwise distinct — Amaranth's "Submodule named ... already
+   exists" NameError cannot occur and no register is left out of the design *)
 Theorem C19_bridge_submodules_ok : forall names, exists r,
-  bridge_submodules names = Ok r /\ names_accepted [] r = true /\ length r = S (length names).
+  bridge_submodules names = Ok r /\ names_accepted [] r = true /\ length r = S (length names) /\
+  Forall (fun o => o <> None) r.
 Proof. exact bridge_submodules_ok. Qed.
 Print Assumptions C19_bridge_submodules_ok.
 
+(* decimal rendering of indices and suffixes is injective (what makes joined_1, joined_2, ... distinct) *)
+Theorem C19_str_of_nat_injective : forall n m, 0 <= n -> 0 <= m -> str_of_nat n = str_of_nat m -> n = m.
+Proof. exact str_of_nat_inj. Qed.
+Print Assumptions C19_str_of_nat_injective.
+
+(* csr.Register.elaborate (a4c349c): a field whose joined path is already taken (or is empty) becomes an
+   anonymous submodule; the names that ARE used are pairwise distinct; one submodule per field *)
 Theorem C19_register_submodules_ok : forall paths, exists r,
   register_submodules paths = Ok r /\ names_accepted [] r = true /\ length r = length paths.
 Proof. exact register_submodules_ok. Qed.
@@ -219,17 +227,22 @@ Example C19_prepare_orig_nonvacuous :
   prepare (prepare_fuel f2_regs) 2 0 f2_regs = Some 4.
 Proof. split; [exact f2_covered|]. vm_compute. auto. Qed.
 
-(* names: "a__0", ("a","0"), "mux", ("k", 10)  ->  mux, a__0, <anonymous>, <anonymous>, k__10;
-   the same list under the naming before 6ea0aed is refused by Amaranth (NameError) *)
+(* names: "a__0", ("a","0"), "mux", ("k", 10)  ->  mux, a__0, a__0_1, mux_1, k__10;
+   the same list under the naming before 6ea0aed is refused by Amaranth (NameError); under 6ea0aed the
+   two colliding registers were anonymous (and, Register being iterable, not added at all) *)
 Definition ex_names : list (list part) :=
   [ [PStr [97; 95; 95; 48]]; [PStr [97]; PStr [48]]; [PStr [109; 117; 120]]; [PStr [107]; PInt 10] ].
 Example C19_names_nonvacuous :
   bridge_submodules ex_names =
+    Ok [Some [109; 117; 120]; Some [97; 95; 95; 48]; Some [97; 95; 95; 48; 95; 49];
+        Some [109; 117; 120; 95; 49]; Some [107; 95; 95; 49; 48]] /\
+  bridge_submodules_v2 ex_names =
     Ok [Some [109; 117; 120]; Some [97; 95; 95; 48]; None; None; Some [107; 95; 95; 49; 48]] /\
   (match assign_names_v1 ex_names with Ok l => names_accepted [mux_name] l = false | Err _ => False end) /\
   join_name_orig [PStr [107]; PInt 10] = Err TypeError /\
-  register_submodules [[]] = Ok [None].
-Proof. vm_compute. auto. Qed.
+  register_submodules [[]; [PStr [97]; PInt 0]; [PStr [97; 95; 95; 48]]] = Ok [None; Some [97; 95; 95; 48]; None] /\
+  str_of_int 1205 = [49; 50; 48; 53] /\ str_of_int 0 = [48] /\ str_of_int (-7) = [45; 55].
+Proof. vm_compute. repeat split. Qed.
 
 (* a zero-width decoder address: the window pattern '-' is cut to the empty pattern *)
 Example C19_wbdec_nonvacuous :
